@@ -30,8 +30,7 @@ CLAIMS = {
     },
     "C03": {
         "text": "Claimed for every input, option set and source kind (a property of the program text): (1) bounded recursion - "
-                "every cycle of the parser's call graph contains a call site charged to remaining_depth (delta -1, after the "
-                "== 0 test), the counter is restored on every exit and starts at a constant >= 101; (2) no panic - every "
+                "every cycle of the parser's call graph contains a call site charged to remaining_depth (delta -1, with a test of the counter against exhaustion on the path, before or after the decrement), the counter is restored on every exit and starts at a constant >= 101; (2) no panic - every "
                 "panic!/unreachable!/unwrap/expect/index/bounds/division construct reachable from the parse entry points is "
                 "discharged by a guard on the same places or listed with its reason in the reviewed inventory (a new site "
                 "alarms); (3) returns - every lexer loop makes progress on each cycle and each successful parse step "
@@ -150,13 +149,11 @@ CLAIMS = {
                 "u64::MAX, -1, i64::MIN), agree (is_x true exactly where as_x is Some; is_f64/as_f64 with the documented "
                 "integer->double asymmetry); as_i64/as_u64 return the stored integer exactly when in range; as_name is Some "
                 "exactly for String/Symbol/Keyword; From<i8..i64> stores n>=0 as PosInt(n) and n<0 as NegInt(n) on the "
-                "boundary values of every width, unsigned as PosInt, floats as Float; each PartialEq impl between Value and "
-                "a primitive calls exactly one eq_* helper of the matching class with From-widening only, both operand "
-                "orders use the same helper and the helper compares through the matching as_* accessor. Preservation of "
+                "boundary values of every width, unsigned as PosInt, floats as Float; each of the 50 PartialEq impls between Value and a primitive, in both operand orders and through references, is evaluated abstractly on the stored integer cases x the boundary values of the primitive type, on booleans, on strings of each name kind and on the non-matching kinds (3298 cases): integers compare by mathematical value, every other pairing is unequal. Preservation of "
                 "string/byte/char payloads as values is not decided.",
         "note": _TB + "std's integer From impls are lossless.",
         "technique": "outcome-map extraction by conditional constant propagation over enum variants and boundary "
-                     "constants; structural audit of macro-generated impls",
+                     "constants; abstract evaluation of the macro-generated comparison impls on boundary cases",
     },
     "C15": {
         "text": "Claimed: the clause 'indexing never panics on any value' - every panic!/unreachable!/unwrap/expect/"
@@ -217,8 +214,7 @@ CLAIMS = {
     "C10": {
         "text": "Claimed (twin cross-check; not item-for-item equality): each hand-duplicated pair (next_value/next_datum, "
                 "parse_list/parse_list_meta, parse_vector/parse_vector_meta, expect_value/expect_datum, parse::from_trait/"
-                "datum::from_trait) agrees on the multiset of error codes raised, the byte constants tested and the "
-                "multiset of parser-internal callees (location-only callees removed, *_meta/*_datum renamed); next_value "
+                "datum::from_trait) agrees on the set of error codes raised, the byte constants tested and the set of parser routines called (loop-free private helpers looked through, location-only callees removed, *_meta/*_datum renamed); next_value "
                 "and next_datum map every atom token to the same Value variant (extracted by abstract evaluation); all four "
                 "sequence parsers accept exactly the closing byte given by their terminator parameter in every position "
                 "(40 abstract cases incl. after a dotted tail). A change made to both twins alike is not detected.",
@@ -290,7 +286,9 @@ _ALSO = {
             "and a Joint one continues it, at the start of a symbol and inside one (70 cases).",
             "abstract evaluation of the macro crate's token parser per punctuation character, compared with byte classes "
             "and token kinds extracted from the text parser"),
-    "C10": ("the dotted-tail handling of the list twins maps each tail token to the same outcome; after a `.` both list "
+    "C10": ("around each nested construct (list, vector, byte vector, quote shorthand) both APIs can raise exactly the same "
+            "error codes (recursion limit, end of input after a quote shorthand, closing delimiter; 8 cases); "
+            "the dotted-tail handling of the list twins maps each tail token to the same outcome; after a `.` both list "
             "parsers classify the following byte identically (dotted tail vs symbol starting with a dot) for all 256 byte "
             "values and end of input.", None),
     "C11": ("for a quote shorthand the end position handed to Datum::quotation is read before the quoted datum is parsed; "
